@@ -118,6 +118,13 @@ class CallMixin:
 
     def write_field(self, s, obj: Val, field: str, v: Val):
         name = obj.ty.name
+        if obj.ty.kind == "data":
+            # In-place mutation of a collection held by a frozen record (e.g. info.copyright_lines.clear()): the record is
+            # shared with whoever handed it in, so this is a write outside every frame.  Frame obligation: the statement
+            # must be unreachable.  (The path continues with the record unchanged: value semantics.)
+            self.emit(s, f"frame/frozen-{name}.{field}-not-mutated", z3.BoolVal(False),
+                      note=f"in-place mutation of {name}.{field}, a collection held by a frozen value shared with the caller")
+            return
         if obj.ty.kind != "ref":
             raise Unsupported(f"assignment to field of immutable {name}")
         fty = self.reg.parse(self.reg.fields[name][field])
